@@ -207,8 +207,60 @@ func c06Body(rng *Rng, tag int) []byte {
 	return b
 }
 
+// c06BackendRefusal: a complete request that passes the uploader's own checks and is then refused
+// by the backend (fs backends: the key lies below an object, or is a directory) is a rejected
+// complete like any other: no object, and the pending upload stays listed with its parts
+func c06BackendRefusal(prop, kind string) {
+	s := newSess(prop, kind, SessOpts{})
+	emit(prop, "NOMODEL")
+	b := singleBucketName
+	if !isSingle(kind) {
+		s.MkBucket(b)
+	}
+	verdict := func(ok bool, what string) {
+		if ok {
+			emit(prop, "GOOD", hs(what))
+		} else {
+			emit(prop, "BAD", hs(what))
+		}
+	}
+	for _, sc := range [][2]string{{"blk", "blk/obj"}, {"tree/leaf", "tree"}} {
+		if r := s.Put(b, sc[0], []byte("in the way"), nil); r.Status != 200 {
+			continue
+		}
+		id := s.Initiate(b, sc[1], []KV{{"X-Amz-Meta-Up", "1"}})
+		if id == "" {
+			continue
+		}
+		et := s.UploadPart(b, sc[1], id, 1, []byte("part one"))
+		r := s.Complete(b, sc[1], id, []CPart{{1, et}})
+		if r.Status == 200 {
+			continue // this backend stores both keys; nothing to check
+		}
+		nontrivial(kind + "|backend-refuses-complete|" + sc[1])
+		lp := s.ListParts(b, sc[1], id, -1, -1)
+		verdict(lp.Resp.Status == 200 && len(lp.Nums) == 1 && lp.Nums[0] == "1", "after a complete refused by the backend ("+kind+", key "+sc[1]+") the pending upload keeps its parts: list-parts answers "+fmt.Sprint(lp.Resp.Status, lp.Nums))
+		lu := s.ListUploads(b, "", "", "", "", -1)
+		found := false
+		for _, e := range lu.Entries {
+			if strings.Contains(e, id) {
+				found = true
+			}
+		}
+		verdict(found, "after a complete refused by the backend the upload is still listed by ListMultipartUploads: "+fmt.Sprint(lu.Entries))
+		g := do(s.h, Req{Method: "GET", Path: "/" + b + "/" + pathEscape(sc[0])})
+		verdict(g.Status == 200 && string(g.Body) == "in the way", "the object in the way is untouched")
+		ab := s.Abort(b, sc[1], id)
+		verdict(ab.Status == 204, "and the upload can still be aborted: "+fmt.Sprint(ab.Status))
+	}
+	s.end()
+}
+
 func runC06(tier string, seed uint64) {
 	rng := NewRng(seed)
+	for _, kind := range allKinds {
+		c06BackendRefusal("c06", kind)
+	}
 	nseq, length := 25, 30
 	if tier == "thorough" {
 		nseq, length = 400, 40
@@ -287,9 +339,12 @@ func runC06(tier string, seed uint64) {
 						}
 					case 3: // unknown number
 						parts = append(parts, CPart{partNums[rng.Intn(len(partNums))], "\"00000000000000000000000000000000\""})
-					case 4: // wrong etag
+					case 4: // wrong etag: unrelated, or the right digest with something appended / in another spelling
 						if len(parts) > 0 {
-							parts[rng.Intn(len(parts))].ETag = "\"ffffffffffffffffffffffffffffffff\""
+							x := rng.Intn(len(parts))
+							right := strings.Trim(parts[x].ETag, "\"")
+							parts[x].ETag = []string{"\"ffffffffffffffffffffffffffffffff\"", "\"" + right + "-1\"", "\"" + right + "0\"", "\"" + right + "zz\"",
+								"\"" + strings.ToUpper(right) + "\"", "\"" + right[:len(right)/2] + "\"", "\"0" + right + "\""}[rng.Intn(7)]
 						}
 					case 5: // duplicate
 						if len(parts) > 0 {
@@ -345,13 +400,16 @@ func runC06(tier string, seed uint64) {
 			s.end()
 		}
 	}
-	sample("histories of 30 ops: initiate (with/without metadata) / upload-part n in {1..4, 7, 9999, 10000, 10001, 0, -1} incl. re-upload and empty body / complete (all parts ascending, subset, permutation, unknown number, wrong etag, duplicate, unquoted etags, empty list; each defect also combined with a subset list; a rejected complete is followed by list-parts) / abort / get / list-parts / list-uploads over 2 keys and several simultaneous uploads (upload ids also used through the other key's URL), on every backend")
+	sample("histories of 30 ops: initiate (with/without metadata) / upload-part n in {1..4, 7, 9999, 10000, 10001, 0, -1} incl. re-upload and empty body / complete (all parts ascending, subset, permutation, unknown number, wrong etag, duplicate, unquoted etags, empty list; each defect also combined with a subset list; a rejected complete is followed by list-parts) / abort / get / list-parts / list-uploads over 2 keys and several simultaneous uploads (upload ids also used through the other key's URL), on every backend; a complete refused by the backend itself (fs: key below an object / key is a directory) leaves the upload pending and listed")
 }
 
 // ---------------------------------------------------------------- C14
 
 func runC14(tier string, seed uint64) {
 	rng := NewRng(seed)
+	for _, kind := range allKinds {
+		c06BackendRefusal("c14", kind) // a refused complete leaves the upload in both listings
+	}
 	nseq := 30
 	if tier == "thorough" {
 		nseq = 400
